@@ -664,6 +664,92 @@ Proof. intros Hl E. pose proof (map_drop_ledger s Hl) as H. unfold wpp in H. rew
 Lemma T_C06_lite_reachable R Esz s : Inv R Esz (s_rt s) -> lite s.
 Proof. apply Inv_lite. Qed.
 
+(* ---------------------------------------------------------------- C07 *)
+
+(* Whatever user callback panics (a fuse may be armed at any callback count, or none), and in
+   whatever call: when the panic is caught every map still satisfies the invariant - hence all
+   of C03/C04/C05 - and every later history behaves like the reference run from the contents
+   the panic left (T_C07_later_calls). *)
+Lemma T_C07_invariant_survives c w t p w' :
+  0 < cR c -> WInv c w -> core_op (t_op t) -> step c w t = Unwind p w' -> WInv c w'.
+Proof.
+  intros HR HW Hc Hrun. pose proof (step_core c HR w t HW Hc) as H. rewrite Hrun in H. cbn [wres] in H.
+  destruct H as [[_ [H _]]|[_ H]]; exact H.
+Qed.
+
+Lemma T_C07_later_calls c ts w acc :
+  0 < cR c -> WInv c w -> Forall core_op (map t_op ts) ->
+  match run c w ts acc with
+  | inl (w', outs) => WInv c w' /\ exists rs, outs = acc ++ rs /\ spec_runs (wabs w) (map t_op ts) rs (wabs w')
+  | inr f => benign f
+  end.
+Proof. intros HR. apply run_core. exact HR. Qed.
+
+(* self-consistency of any state satisfying the invariant: len() is the number of iterated
+   entries, each entry is iterated once, and each is found by a lookup of its key, in the
+   table where it is stored *)
+Lemma T_C07_self_consistent c r :
+  Inv (cR c) (cesz c) r ->
+  N.of_nat (length (iter_elems r)) = rt_len r /\ NoDup (map ek (iter_elems r)) /\
+  (forall e, e ∈ iter_elems r -> exists im, rt_find_pure r (ek e) = Some (im, e)).
+Proof.
+  intros HI. destruct (iter_elems_spec c r HI) as (Hnd & Hin & Hlen). split; [exact Hlen|]. split; [exact Hnd|].
+  intros e He. apply Hin in He. rewrite (rt_find_abs c r (ek e) HI) in He.
+  destruct (rt_find_pure r (ek e)) as [[im x]|]; [|discriminate]. injection He as ->. eauto.
+Qed.
+
+(* what may be lost.  insert: whatever is in the map afterwards under another key was there
+   before, with the same key object and value (a panicking Hash may drop elements being moved;
+   nothing is invented or altered) *)
+Lemma T_C07_insert_loss c k kid v s p s' :
+  Inv (cR c) (cesz c) (s_rt s) -> map_insert c k kid v s = Unwind p s' ->
+  Inv (cR c) (cesz c) (s_rt s') /\
+  (forall j e, rt_abs (s_rt s') !! j = Some e -> j <> k -> rt_abs (s_rt s) !! j = Some e).
+Proof.
+  intros HI E. pose proof (map_insert_spec c k kid v s HI) as H. unfold wp in H. rewrite E in H.
+  destruct H as (H1 & _ & H3). auto.
+Qed.
+
+(* reserve / try_reserve (which re-hash every element still to be moved): the contents
+   afterwards are a sub-map of the contents before *)
+Lemma T_C07_reserve_loss c fallible n s p s' :
+  Inv (cR c) (cesz c) (s_rt s) -> n <= usize_max -> rt_reserve c fallible n s = Unwind p s' ->
+  Inv (cR c) (cesz c) (s_rt s') /\ rt_abs (s_rt s') ⊆ rt_abs (s_rt s).
+Proof.
+  intros HI Hn E.
+  pose proof (rt_reserve_spec c fallible n (fun _ _ => True)
+                (fun p s' => Inv (cR c) (cesz c) (s_rt s') /\ rt_abs (s_rt s') ⊆ rt_abs (s_rt s)) s HI Hn) as H.
+  unfold wp in H. rewrite E in H. apply H; auto. intros p0 s0 (H1 & _ & H3 & _) _. auto.
+Qed.
+
+(* clone: a panicking Clone or Hash leaves the source exactly as it was (the new table was a
+   local and is gone) *)
+Lemma T_C07_clone_source_untouched c s p s' :
+  Inv (cR c) (cesz c) (s_rt s) -> rt_clone c s = Unwind p s' -> s_rt s' = s_rt s.
+Proof.
+  intros HI E. pose proof (rt_clone_spec c (fun _ _ => True) (fun _ s' => s_rt s' = s_rt s) s HI) as H.
+  unfold wp in H. rewrite E in H. apply H; auto.
+Qed.
+
+(* clone_from: interrupted, the destination still satisfies the invariant (its contents are
+   unspecified, as documented) *)
+Lemma T_C07_clone_from_interrupted c src s p s' :
+  Inv (cR c) (cesz c) (s_rt s) -> Inv (cR c) (cesz c) src -> rt_clone_from c src s = Unwind p s' ->
+  Inv (cR c) (cesz c) (s_rt s').
+Proof.
+  intros HI HIs E. pose proof (rt_clone_from_spec c src (fun _ _ => True) (fun _ s' => Inv (cR c) (cesz c) (s_rt s')) s HI HIs) as H.
+  unfold wp in H. rewrite E in H. apply H; auto.
+Qed.
+
+(* entry / raw-entry steps (and_modify, or_insert_with*, replace_entry_with closures, Hash):
+   the invariant survives, and a step that unwrap-panics (finding D6) changed nothing *)
+Lemma T_C07_entry_step c raw e st0 s p s' :
+  Inv (cR c) (cesz c) (s_rt s) -> ent_ok (s_rt s) e -> entry_step c raw e st0 s = Unwind p s' ->
+  Inv (cR c) (cesz c) (s_rt s').
+Proof.
+  intros HI Hok E. pose proof (entry_step_spec c raw e st0 s HI Hok) as H. unfold wp in H. rewrite E in H. apply H.
+Qed.
+
 (* ---------------------------------------------------------------- C13 *)
 
 (* A HashSet is the map with () values: insert / replace / remove / take / get / get_or_insert* /
